@@ -46,11 +46,12 @@ VARIABLES
     qto,      \* the transport's own query / idle liveness timeout hit this connection
     ugo,      \* udp: socket + reader goroutine alive
     cpc, cres, cctx, con, answered,
+    own,      \* the call opened the connection it waits on itself (a fresh connection: its failure is reported, not retried)
     ust,      \* udp leg of a call: "none" | "sent" | "tc" | "ok" | "fail"
     hist
 
 vars == <<kind, listen, now, cnow, closed, closeRet, dst, epoch0, sconn, dgo, qto, ugo,
-          cpc, cres, cctx, con, answered, ust, hist>>
+          cpc, cres, cctx, con, answered, own, ust, hist>>
 
 Dials == 1..MaxD
 Calls == InitCalls \cup (IF LateCall = 0 THEN {} ELSE {LateCall})
@@ -74,6 +75,7 @@ Init ==
     /\ cctx = [c \in Calls |-> FALSE]
     /\ con = [c \in Calls |-> 0]
     /\ answered = [c \in Calls |-> FALSE]
+    /\ own = [c \in Calls |-> FALSE]
     /\ ust = [c \in Calls |-> "none"]
     /\ hist = <<>>
 
@@ -123,13 +125,18 @@ Call(c) ==
     /\ cpc' = [cpc EXCEPT ![c] = "wait"]
     /\ IF Udp
          THEN /\ ust' = [ust EXCEPT ![c] = "sent"] /\ ugo' = TRUE
-              /\ UNCHANGED <<dst, epoch0, dgo, con>>
+              /\ UNCHANGED <<dst, epoch0, dgo, con, own>>
          ELSE /\ UNCHANGED <<ust, ugo>>
               /\ \/ /\ Free # {} /\ StartDial(NewD) /\ con' = [con EXCEPT ![c] = NewD]
+                    /\ own' = [own EXCEPT ![c] = TRUE]
                  \/ /\ \E d \in Dials :
                          /\ \/ Pipe /\ dst[d] \in {"connecting", "handshaking", "up"}
                             \/ dst[d] = "up" /\ Idle(d)
                          /\ con' = [con EXCEPT ![c] = d]
+                         \* which of the calls sharing a lazy dial really opened it is not observable: either
+                         /\ \/ UNCHANGED own
+                            \/ \E o \in Calls : /\ o # c /\ con[o] = d /\ own[o] /\ Waiting(o)
+                                                 /\ own' = [own EXCEPT ![o] = FALSE, ![c] = TRUE]
                     /\ UNCHANGED <<dst, epoch0, dgo>>
     /\ H([a |-> "Call", c |-> c])
     /\ UNCHANGED <<kind, listen, now, cnow, closed, closeRet, sconn, qto, cres, cctx, answered>>
@@ -142,13 +149,13 @@ CallLate(c) ==
          THEN cpc' = [cpc EXCEPT ![c] = "wait"] /\ UNCHANGED cres
          ELSE cpc' = [cpc EXCEPT ![c] = "done"] /\ cres' = [cres EXCEPT ![c] = "err"]
     /\ H([a |-> "CallLate", c |-> c])
-    /\ UNCHANGED <<kind, listen, now, cnow, closed, closeRet, dst, epoch0, sconn, dgo, qto, ugo, cctx, con, answered, ust>>
+    /\ UNCHANGED <<kind, listen, now, cnow, closed, closeRet, dst, epoch0, sconn, dgo, qto, ugo, cctx, con, answered, ust, own>>
 
 RetOk(c) ==
     /\ Waiting(c) /\ answered[c]
     /\ cpc' = [cpc EXCEPT ![c] = "done"] /\ cres' = [cres EXCEPT ![c] = "ok"]
     /\ H([a |-> "RetOk", c |-> c])
-    /\ UNCHANGED <<kind, listen, now, cnow, closed, closeRet, dst, epoch0, sconn, dgo, qto, ugo, cctx, con, answered, ust>>
+    /\ UNCHANGED <<kind, listen, now, cnow, closed, closeRet, dst, epoch0, sconn, dgo, qto, ugo, cctx, con, answered, ust, own>>
 
 ErrCause(c) ==
     \/ cctx[c]
@@ -160,7 +167,22 @@ RetErr(c) ==
     /\ Waiting(c) /\ ErrCause(c)
     /\ cpc' = [cpc EXCEPT ![c] = "done"] /\ cres' = [cres EXCEPT ![c] = "err"]
     /\ H([a |-> "RetErr", c |-> c])
-    /\ UNCHANGED <<kind, listen, now, cnow, closed, closeRet, dst, epoch0, sconn, dgo, qto, ugo, cctx, con, answered, ust>>
+    /\ UNCHANGED <<kind, listen, now, cnow, closed, closeRet, dst, epoch0, sconn, dgo, qto, ugo, cctx, con, answered, ust, own>>
+
+\* a call whose connection died / whose shared dial failed may be tried again on another connection (the transports
+\* retry calls that did not open the connection themselves; how often is not part of this contract)
+Retry(c) ==
+    /\ Waiting(c) /\ ~closed /\ con[c] # 0 /\ ~own[c]
+    /\ Ended(con[c]) \/ cctx[c]      \* (the transports' retry test does not look at the context: a cancelled call may move on once more)
+    /\ \/ /\ Free # {} /\ StartDial(NewD) /\ con' = [con EXCEPT ![c] = NewD]
+          /\ own' = [own EXCEPT ![c] = TRUE]
+       \/ /\ \E d \in Dials :
+               /\ \/ Pipe /\ dst[d] \in {"connecting", "handshaking", "up"}
+                  \/ dst[d] = "up" /\ Idle(d)
+               /\ con' = [con EXCEPT ![c] = d]
+          /\ UNCHANGED <<dst, epoch0, dgo, own>>
+    /\ H([a |-> "Retry", c |-> c])
+    /\ UNCHANGED <<kind, listen, now, cnow, closed, closeRet, sconn, qto, ugo, cpc, cres, cctx, answered, ust>>
 
 \* deviation only: the truncated udp reply handed out as a success after the tcp leg failed
 RetTc(c) ==
@@ -168,7 +190,7 @@ RetTc(c) ==
     /\ Waiting(c) /\ ust[c] = "tc" /\ con[c] # 0 /\ Ended(con[c])
     /\ cpc' = [cpc EXCEPT ![c] = "done"] /\ cres' = [cres EXCEPT ![c] = "ok"]
     /\ H([a |-> "RetTc", c |-> c])
-    /\ UNCHANGED <<kind, listen, now, cnow, closed, closeRet, dst, epoch0, sconn, dgo, qto, ugo, cctx, con, answered, ust>>
+    /\ UNCHANGED <<kind, listen, now, cnow, closed, closeRet, dst, epoch0, sconn, dgo, qto, ugo, cctx, con, answered, ust, own>>
 
 ------------------------------------------------------------------------------
 \* dial / connection: system steps
@@ -181,7 +203,7 @@ DialAbort(d) ==
     /\ dst' = [dst EXCEPT ![d] = "failed"]
     /\ CloseClient(d)
     /\ H([a |-> "DialAbort", d |-> d])
-    /\ UNCHANGED <<kind, listen, now, cnow, closed, closeRet, epoch0, dgo, qto, ugo, cpc, cres, cctx, con, answered, ust>>
+    /\ UNCHANGED <<kind, listen, now, cnow, closed, closeRet, epoch0, dgo, qto, ugo, cpc, cres, cctx, con, answered, ust, own>>
 
 \* an established connection is closed: by Close, after the server closed it, after the transport's own
 \* liveness timeout, or any time while idle (idle timeout)
@@ -192,25 +214,25 @@ ConnClose(d) ==
     /\ dst' = [dst EXCEPT ![d] = "closed"]
     /\ CloseClient(d)
     /\ H([a |-> "ConnClose", d |-> d])
-    /\ UNCHANGED <<kind, listen, now, cnow, closed, closeRet, epoch0, dgo, qto, ugo, cpc, cres, cctx, con, answered, ust>>
+    /\ UNCHANGED <<kind, listen, now, cnow, closed, closeRet, epoch0, dgo, qto, ugo, cpc, cres, cctx, con, answered, ust, own>>
 
 GoExit(d) ==
     /\ Ended(d) /\ dgo[d]
     /\ dgo' = [dgo EXCEPT ![d] = FALSE]
     /\ H([a |-> "GoExit", d |-> d])
-    /\ UNCHANGED <<kind, listen, now, cnow, closed, closeRet, dst, epoch0, sconn, qto, ugo, cpc, cres, cctx, con, answered, ust>>
+    /\ UNCHANGED <<kind, listen, now, cnow, closed, closeRet, dst, epoch0, sconn, qto, ugo, cpc, cres, cctx, con, answered, ust, own>>
 
 UGoExit ==
     /\ ugo /\ closed
     /\ ugo' = FALSE
     /\ H([a |-> "UGoExit"])
-    /\ UNCHANGED <<kind, listen, now, cnow, closed, closeRet, dst, epoch0, sconn, dgo, qto, cpc, cres, cctx, con, answered, ust>>
+    /\ UNCHANGED <<kind, listen, now, cnow, closed, closeRet, dst, epoch0, sconn, dgo, qto, cpc, cres, cctx, con, answered, ust, own>>
 
 CloseReturns ==
     /\ closed /\ ~closeRet
     /\ closeRet' = TRUE
     /\ H([a |-> "CloseReturns"])
-    /\ UNCHANGED <<kind, listen, now, cnow, closed, dst, epoch0, sconn, dgo, qto, ugo, cpc, cres, cctx, con, answered, ust>>
+    /\ UNCHANGED <<kind, listen, now, cnow, closed, dst, epoch0, sconn, dgo, qto, ugo, cpc, cres, cctx, con, answered, ust, own>>
 
 ------------------------------------------------------------------------------
 \* environment: server, timers, the user of the upstream
@@ -221,21 +243,21 @@ TcpAccept(d) ==
     /\ sconn' = [sconn EXCEPT ![d] = "open"]
     /\ dst' = [dst EXCEPT ![d] = IF Tls THEN "handshaking" ELSE "up"]
     /\ H([a |-> "TcpAccept", d |-> d])
-    /\ UNCHANGED <<kind, listen, now, cnow, closed, closeRet, epoch0, dgo, qto, ugo, cpc, cres, cctx, con, answered, ust>>
+    /\ UNCHANGED <<kind, listen, now, cnow, closed, closeRet, epoch0, dgo, qto, ugo, cpc, cres, cctx, con, answered, ust, own>>
 
 TcpRefuse(d) ==
     /\ EnvMay
     /\ listen = "refuse" /\ dst[d] = "connecting"
     /\ dst' = [dst EXCEPT ![d] = "failed"]
     /\ H([a |-> "TcpRefuse", d |-> d])
-    /\ UNCHANGED <<kind, listen, now, cnow, closed, closeRet, epoch0, sconn, dgo, qto, ugo, cpc, cres, cctx, con, answered, ust>>
+    /\ UNCHANGED <<kind, listen, now, cnow, closed, closeRet, epoch0, sconn, dgo, qto, ugo, cpc, cres, cctx, con, answered, ust, own>>
 
 HsComplete(d) ==
     /\ EnvMay
     /\ dst[d] = "handshaking" /\ sconn[d] = "open"
     /\ dst' = [dst EXCEPT ![d] = "up"]
     /\ H([a |-> "HsComplete", d |-> d])
-    /\ UNCHANGED <<kind, listen, now, cnow, closed, closeRet, epoch0, sconn, dgo, qto, ugo, cpc, cres, cctx, con, answered, ust>>
+    /\ UNCHANGED <<kind, listen, now, cnow, closed, closeRet, epoch0, sconn, dgo, qto, ugo, cpc, cres, cctx, con, answered, ust, own>>
 
 \* the server closes the connection: during the handshake the dial fails, later the connection is dead
 SrvClose(d) ==
@@ -244,14 +266,14 @@ SrvClose(d) ==
     /\ sconn' = [sconn EXCEPT ![d] = "sclosed"]
     /\ dst' = [dst EXCEPT ![d] = IF dst[d] = "handshaking" THEN "failed" ELSE "up"]
     /\ H([a |-> "SrvClose", d |-> d])
-    /\ UNCHANGED <<kind, listen, now, cnow, closed, closeRet, epoch0, dgo, qto, ugo, cpc, cres, cctx, con, answered, ust>>
+    /\ UNCHANGED <<kind, listen, now, cnow, closed, closeRet, epoch0, dgo, qto, ugo, cpc, cres, cctx, con, answered, ust, own>>
 
 Answer(c) ==
     /\ EnvMay
     /\ Waiting(c) /\ ~answered[c] /\ con[c] # 0 /\ dst[con[c]] = "up" /\ sconn[con[c]] = "open"
     /\ answered' = [answered EXCEPT ![c] = TRUE]
     /\ H([a |-> "Answer", c |-> c])
-    /\ UNCHANGED <<kind, listen, now, cnow, closed, closeRet, dst, epoch0, sconn, dgo, qto, ugo, cpc, cres, cctx, con, ust>>
+    /\ UNCHANGED <<kind, listen, now, cnow, closed, closeRet, dst, epoch0, sconn, dgo, qto, ugo, cpc, cres, cctx, con, ust, own>>
 
 \* the transport's own liveness timeout (6 s reuse / 10 s pipelined, udp): the silent connection is given up
 QueryTimeout(d) ==
@@ -259,7 +281,7 @@ QueryTimeout(d) ==
     /\ dst[d] = "up" /\ ~qto[d] /\ \E c \in Calls : Waiting(c) /\ con[c] = d /\ ~answered[c]
     /\ qto' = [qto EXCEPT ![d] = TRUE]
     /\ H([a |-> "QueryTimeout", d |-> d])
-    /\ UNCHANGED <<kind, listen, now, cnow, closed, closeRet, dst, epoch0, sconn, dgo, ugo, cpc, cres, cctx, con, answered, ust>>
+    /\ UNCHANGED <<kind, listen, now, cnow, closed, closeRet, dst, epoch0, sconn, dgo, ugo, cpc, cres, cctx, con, answered, ust, own>>
 
 \* udp leg: a full reply, a truncated one (the call goes on over a new tcp connection), or silence until the timeout
 UdpAnswer(c, tc) ==
@@ -268,11 +290,12 @@ UdpAnswer(c, tc) ==
     /\ IF tc
          THEN /\ Free # {} /\ StartDial(NewD)
               /\ con' = [con EXCEPT ![c] = NewD]
+              /\ own' = [own EXCEPT ![c] = TRUE]
               /\ ust' = [ust EXCEPT ![c] = "tc"]
               /\ UNCHANGED answered
          ELSE /\ ust' = [ust EXCEPT ![c] = "ok"]
               /\ answered' = [answered EXCEPT ![c] = TRUE]
-              /\ UNCHANGED <<dst, epoch0, dgo, con>>
+              /\ UNCHANGED <<dst, epoch0, dgo, con, own>>
     /\ H([a |-> "UdpAnswer", c |-> c, tc |-> tc])
     /\ UNCHANGED <<kind, listen, now, cnow, closed, closeRet, sconn, qto, ugo, cpc, cres, cctx>>
 
@@ -281,14 +304,14 @@ UdpTimeout(c) ==
     /\ Udp /\ Waiting(c) /\ ust[c] = "sent"
     /\ ust' = [ust EXCEPT ![c] = "fail"]
     /\ H([a |-> "UdpTimeout", c |-> c])
-    /\ UNCHANGED <<kind, listen, now, cnow, closed, closeRet, dst, epoch0, sconn, dgo, qto, ugo, cpc, cres, cctx, con, answered>>
+    /\ UNCHANGED <<kind, listen, now, cnow, closed, closeRet, dst, epoch0, sconn, dgo, qto, ugo, cpc, cres, cctx, con, answered, own>>
 
 Cancel(c) ==
     /\ EnvMay /\ EnvCancel
     /\ Waiting(c) /\ ~cctx[c]
     /\ cctx' = [cctx EXCEPT ![c] = TRUE]
     /\ H([a |-> "Cancel", c |-> c])
-    /\ UNCHANGED <<kind, listen, now, cnow, closed, closeRet, dst, epoch0, sconn, dgo, qto, ugo, cpc, cres, con, answered, ust>>
+    /\ UNCHANGED <<kind, listen, now, cnow, closed, closeRet, dst, epoch0, sconn, dgo, qto, ugo, cpc, cres, con, answered, ust, own>>
 
 \* (generator: time passes / Close happens only after the scenario's calls have been made)
 AllCalled == \A c \in InitCalls : cpc[c] # "idle"
@@ -298,29 +321,29 @@ Close ==
     /\ ~closed
     /\ closed' = TRUE
     /\ H([a |-> "Close"])
-    /\ UNCHANGED <<kind, listen, now, cnow, closeRet, dst, epoch0, sconn, dgo, qto, ugo, cpc, cres, cctx, con, answered, ust>>
+    /\ UNCHANGED <<kind, listen, now, cnow, closeRet, dst, epoch0, sconn, dgo, qto, ugo, cpc, cres, cctx, con, answered, ust, own>>
 
 Tick01 ==
     /\ EnvMay /\ (Eager => AllCalled)
     /\ now = 0 /\ now' = 1
     /\ H([a |-> "Tick01"])
-    /\ UNCHANGED <<kind, listen, cnow, closed, closeRet, dst, epoch0, sconn, dgo, qto, ugo, cpc, cres, cctx, con, answered, ust>>
+    /\ UNCHANGED <<kind, listen, cnow, closed, closeRet, dst, epoch0, sconn, dgo, qto, ugo, cpc, cres, cctx, con, answered, ust, own>>
 
 \* dial timeout + slack has certainly passed: only when nothing the timeout enables is still pending
 Tick12 ==
     /\ EnvMay
     /\ now = 1 /\ ~Urgent /\ now' = 2
     /\ H([a |-> "Tick12"])
-    /\ UNCHANGED <<kind, listen, cnow, closed, closeRet, dst, epoch0, sconn, dgo, qto, ugo, cpc, cres, cctx, con, answered, ust>>
+    /\ UNCHANGED <<kind, listen, cnow, closed, closeRet, dst, epoch0, sconn, dgo, qto, ugo, cpc, cres, cctx, con, answered, ust, own>>
 
 CTick ==
     /\ EnvMay
     /\ closed /\ cnow = 0 /\ ~CUrgent /\ cnow' = 2
     /\ H([a |-> "CTick"])
-    /\ UNCHANGED <<kind, listen, now, closed, closeRet, dst, epoch0, sconn, dgo, qto, ugo, cpc, cres, cctx, con, answered, ust>>
+    /\ UNCHANGED <<kind, listen, now, closed, closeRet, dst, epoch0, sconn, dgo, qto, ugo, cpc, cres, cctx, con, answered, ust, own>>
 
 Next ==
-    \/ \E c \in Calls : Call(c) \/ CallLate(c) \/ RetOk(c) \/ RetErr(c) \/ RetTc(c) \/ Answer(c) \/ Cancel(c)
+    \/ \E c \in Calls : Call(c) \/ CallLate(c) \/ RetOk(c) \/ RetErr(c) \/ RetTc(c) \/ Retry(c) \/ Answer(c) \/ Cancel(c)
                         \/ UdpTimeout(c) \/ \E tc \in BOOLEAN : UdpAnswer(c, tc)
     \/ \E d \in Dials : DialAbort(d) \/ ConnClose(d) \/ GoExit(d) \/ TcpAccept(d) \/ TcpRefuse(d) \/ HsComplete(d)
                         \/ SrvClose(d) \/ QueryTimeout(d)
@@ -369,5 +392,5 @@ Emit == AllDone =>
     PrintT(<<"BEH", ToJson([kind |-> kind, listen |-> listen, steps |-> hist])>>)
 
 ViewNoHist == <<kind, listen, now, cnow, closed, closeRet, dst, epoch0, sconn, dgo, qto, ugo,
-                cpc, cres, cctx, con, answered, ust>>
+                cpc, cres, cctx, con, answered, own, ust>>
 =============================================================================
